@@ -46,9 +46,13 @@ class C14(Prop):
                 s = sum(w)
                 w = [x / s for x in w]
             names = rng.sample(NAMES, T)
-            return {"kind": "jdd", "jdd": [[list(k), rs(x)] for k, x in zip(keys, w)], "names": names}
+            order = list(range(T))
+            if rng.random() < 0.5:
+                rng.shuffle(order)
+            return {"kind": "jdd", "jdd": [[list(k), rs(x)] for k, x in zip(keys, w)], "names": names, "dict_order": order}
         c = netgen.generated_network(rng) if rng.random() < 0.6 else netgen.hand_network(rng)
         c["kind"] = "net"
+        c["reverse_dict"] = rng.random() < 0.5
         return c
 
     # ------------------------------------------------------------------ real code
@@ -75,6 +79,9 @@ class C14(Prop):
             obs["excess"] = [tab(q) for q in qs]
             qd = JointExcessfromJDD.convert_list_qks_to_dict(qs, names)
             back = JointExcessfromJDD.convert_dict_qks_to_list(qd, names)
+            # the dict of excess distributions is keyed by NAME: its insertion order must not matter
+            order = case.get("dict_order") or list(range(len(names)))
+            qd = {names[i]: qd[names[i]] for i in order}
             obs["list_dict_roundtrip"] = [tab(q) for q in back] == obs["excess"]
             # the common key exactly as the code computes it
             try:
@@ -96,6 +103,8 @@ class C14(Prop):
         P = JointDegreeDistributionFromNetwork.get_joint_degree_distribution(G)
         obs = {"jdd_from_network": sorted([list(k), rs(recover(v, n))] for k, v in P.items())}
         exact = {nm: {k: Ex(v) for k, v in netgen.exact_ejk(case, i, nm).items()} for i, nm in enumerate(names)}
+        if case.get("reverse_dict"):
+            exact = dict(reversed(list(exact.items())))
         M = JointExcessJointDegreeMatrices({TN.EJKS: exact, TN.EDGE_NAMES: names})
         obs["split_keys"] = [[nm, sorted(list(k) for k in M.excess_degree_keys[nm])] for nm in names]
         qks = JointExcessFromEjk.get_excess_joint_distributions(M)
